@@ -218,6 +218,7 @@ func runC10(c *fw.Ctx) {
 		c10Case(c, r, genTFTree(r, root, r.Range(2, 5)))
 	})
 	// long paths: chains 20-60 levels deep, long keys
+	historyCases(c, "history", 150, 15000, probePaths)
 	c.Cases("deep-paths", c.N(40, 4000), false, func(i int, r *rng.R) {
 		d := r.Range(20, 60)
 		longKey := strings.Repeat("k", []int{1, 40, 300, 2000}[r.Intn(4)])
@@ -242,9 +243,28 @@ func c10Case(c *fw.Ctx, r *rng.R, tree *spec.Spec) {
 	guard(c, in, func() {
 		h := &model.Heap{}
 		root := h.FromSpec(tree)
+		c.Distinct(tree.Canon())
+		c10Check(c, r, h, root, in, tree)
+	})
+}
+
+// probePaths: the reads of c10Check on a tree that has a history of mutations behind it (tree-form writes with padding,
+// method calls on nested containers, one container instance at several places).
+func probePaths(p *prog, root *model.Node, round int) {
+	p.trace = append(p.trace, fmt.Sprintf("probe %d: every resolvable path, corruptions of a sample, unresolvable strings", round))
+	before := p.c.Violations()
+	c10Check(p.c, p.r, p.h, root, p.input, root.ToSpec())
+	if p.c.Violations() > before {
+		p.failed = true
+	}
+}
+
+func c10Check(c *fw.Ctx, r *rng.R, h *model.Heap, root *model.Node, describe func() string, tree *spec.Spec) {
+	describeTree := func(*spec.Spec) string { return describe() }
+	in := describe
+	{
 		real := root.Real
 		before := stringCanon(real)
-		c.Distinct(tree.Canon())
 		paths, vals := model.AllPaths(root, 400)
 		check := func(p string) bool {
 			c.MarkInput(p)
@@ -393,7 +413,7 @@ func c10Case(c *fw.Ctx, r *rng.R, tree *spec.Spec) {
 			}
 			c.Sample(map[string]any{"tree": tree.Canon(), "resolvable_paths": paths[:n]})
 		}
-	})
+	}
 }
 
 func selfC10(s *fw.SelfCheck) {
